@@ -438,7 +438,9 @@ func parsePossibilityStageSet(input *input, possi *Possibility) error {
 			return errors.New("Oh no. Reached EOF before StageSet finished")
 		case '>':
 			input.Next()
-			possi.StageSets = append(possi.StageSets, stageSet)
+			if len(stageSet.Stages) != 0 { /* "<>" is no restriction, like "[]" */
+				possi.StageSets = append(possi.StageSets, stageSet)
+			}
 			return nil
 		}
 
